@@ -35,7 +35,7 @@ from harness import lib
 from harness.lib import RunResult, Violation
 
 PID = "C16"
-COQ_TARGETS = ["props/C16.vo"]
+COQ_TARGETS = ["props/C16.vo", "model/EngineInv.vo"]   # EngineInv: needed by the extracted oracle (engine part)
 THEOREMS = ["Stab.props.C16." + t for t in (
     "C16_bfs_exact", "C16_kahn_result", "C16_kahn_topological", "C16_fuel_suffices", "C16_visibility",
     "C16_noninterference",
@@ -1161,6 +1161,14 @@ def run(ctx) -> RunResult:
     multi = [len(v) for v in per.values()]
     res.distribution["stage_plans_with_2+_distinct_merge_orders_over_seeds"] = sum(1 for x in multi if x >= 2)
     res.distribution["max_distinct_merge_orders_of_one_stage"] = max(multi) if multi else 0
+    # ---- the same property through the ENGINE: what every task execution saw, under every delivery order, a crash after
+    # every commit (the claim / plan window included) + restart + recovery, and sweeps; commit-level correspondence with the
+    # extracted Engine model (planned_ctx = merged ancestor outputs, hydrated keys) and the monitor m_c16
+    try:
+        from harness import engine_corr
+        engine_corr.extend(ctx, res, PID)
+    except ImportError as e:
+        res.notes.append(f"engine part not available: {e!r}")
     return res
 
 
@@ -1192,6 +1200,9 @@ def search(ctx, broken):
 def replay(obj) -> bool:
     r = obj["replay"]
     kind = r.get("kind")
+    if "actions" in r and "spec" in r and kind not in ("engine_jump", "reducers", "plan", "replan"):
+        from harness import engine_corr
+        return engine_corr.replay(obj)
     if kind == "engine_jump":
         (obs, _), _ = run_workers([{"kind": "engine_jump"}], ["0"])
         return all(rec["saw_x"] == rec["a_has_output"] for rec in obs[0]["ledger"] if rec["stage"] == "b")
